@@ -682,40 +682,14 @@ func elementLoopIsFullRange(e henc) (bool, string) {
 // isRangeIndexOver: idx is the index of a `for i := range s` loop over slice s
 // (go/ssa: idx = phi(-1, idx)+1, loop condition idx < len(s')).
 func isRangeIndexOver(idx ssa.Value, slice ssa.Value) (bool, string) {
-	add, ok := idx.(*ssa.BinOp)
-	if !ok || add.Op != token.ADD {
-		return false, "elements are not visited by a range loop (index is not a range index)"
+	s := rangeIndexSeq(idx)
+	if s == nil {
+		return false, "elements are not visited by a loop over the whole slice (the index is neither a range index nor a 0..len-1 counter)"
 	}
-	phi, ok := add.X.(*ssa.Phi)
-	if !ok {
-		return false, "elements are not visited by a range loop"
+	if canon(s) == canon(slice) {
+		return true, ""
 	}
-	if one, ok := constInt(add.Y); !ok || one != 1 {
-		return false, "element index does not advance by one"
-	}
-	start := false
-	for _, ed := range phi.Edges {
-		if k, ok := constInt(ed); ok && k == -1 {
-			start = true
-		} else if ed != idx {
-			return false, "element index is reassigned inside the loop"
-		}
-	}
-	if !start {
-		return false, "element loop does not start at the first element"
-	}
-	// the loop test: idx < len(x) with canon(x) == canon(slice)
-	for _, r := range *idx.Referrers() {
-		if cmp, ok := r.(*ssa.BinOp); ok && cmp.Op == token.LSS && cmp.X == idx {
-			if call, ok := cmp.Y.(*ssa.Call); ok && isBuiltin(call, "len") {
-				if canon(call.Call.Args[0]) == canon(slice) {
-					return true, ""
-				}
-				return false, fmt.Sprintf("element loop is bounded by len(%s), not by the length of the hashed slice %s", canon(call.Call.Args[0]), canon(slice))
-			}
-		}
-	}
-	return false, "element loop bound is not len() of the hashed slice"
+	return false, fmt.Sprintf("element loop is bounded by len(%s), not by the length of the slice %s", canon(s), canon(slice))
 }
 
 func runHashPrimitives(c *Ctx, prims map[*ssa.Function]string) {
